@@ -566,6 +566,47 @@ func ruleC01Anchor(r *Run) {
 			n++
 			construct := fmt.Sprintf("%s:store Route.regex#%d", FuncName(f), i+1)
 			c, ok := st.Val.(*ssa.Call)
+			if ok && staticCallee(c) != nil && w.InModule(staticCallee(c)) {
+				// a helper that does nothing but compile an anchored pattern built from its arguments
+				h := staticCallee(c)
+				okH := true
+				nret := 0
+				eachInstr(h, func(in ssa.Instruction) {
+					switch x := in.(type) {
+					case *ssa.Return:
+						nret++
+						cc, isCall := x.Results[0].(*ssa.Call)
+						if !isCall || (calleeName(cc) != "regexp.MustCompile") {
+							okH = false
+							return
+						}
+						l, rr := cc.Call.Args[0], cc.Call.Args[0]
+						for {
+							if b, isB := l.(*ssa.BinOp); isB && b.Op == token.ADD {
+								l = b.X
+								continue
+							}
+							break
+						}
+						if b, isB := rr.(*ssa.BinOp); isB && b.Op == token.ADD {
+							rr = b.Y
+						}
+						ls, _ := constString(l)
+						rs, _ := constString(rr)
+						if !((ls == "^" || ls == `\A`) && (rs == "$" || rs == `\z`)) {
+							okH = false
+						}
+					case *ssa.Lookup, *ssa.MapUpdate, *ssa.Store:
+						okH = false // no memo, no state
+					case *ssa.UnOp:
+						if x.Op == token.MUL {
+							okH = false
+						}
+					}
+				})
+				r.Check(rule, construct, w.InstrPos(st), okH && nret > 0, map[bool]string{true: "compiled by a stateless helper that anchors the pattern built from its arguments", false: "Route.regex comes from " + FuncName(h) + ", which is not a stateless 'compile this anchored pattern' helper (e.g. it looks the regexp up in a table: a route can receive a regexp compiled for another pattern)"}[okH && nret > 0])
+				continue
+			}
 			if !ok || (calleeName(c) != "regexp.MustCompile" && calleeName(c) != "regexp.Compile") {
 				if ex, isEx := st.Val.(*ssa.Extract); isEx {
 					if c2, ok2 := ex.Tuple.(*ssa.Call); ok2 && calleeName(c2) == "regexp.Compile" {
@@ -1069,7 +1110,7 @@ func init() {
 			NotDecided:  []string{"values equal the path substrings; values satisfy the variable's regex; empty string for absent optional parts (run-time regexp behaviour)"},
 			Assumptions: []string{"regexp.FindAllStringSubmatch returns 1+NumSubexp entries per match (documented)"},
 		},
-		Rules: []ruleFn{{"C02-ALIGN", ruleC02Align}, {"C02-GROUPS", ruleC02Groups}, {"C02-WRITERS", ruleC02Writers}, {"C02-CACHE", ruleC02Cache("C02-CACHE")}, {"C07-NODE", ruleCacheStruct("C07")}, {"C07-KEY", ruleCacheKey("C07-KEY")}},
+		Rules: []ruleFn{{"C02-ALIGN", ruleC02Align}, {"C02-GROUPS", ruleC02Groups}, {"C02-WRITERS", ruleC02Writers}, {"C02-CACHE", ruleC02Cache("C02-CACHE")}, {"C07-NODE", ruleCacheStruct("C07")}, {"C07-KEY", ruleCacheKey("C07-KEY")}, {"C01-ANCHOR", ruleC01Anchor}},
 	})
 }
 
